@@ -105,14 +105,24 @@ pub fn chain_programs(max_leaves: usize, bins: &[u16], stride_last: usize, salt:
             let tree = chain_to_tree(&leaves, &ops);
             let text = render_chain(&leaves, &ops);
             out.push(Program { tree: Some(tree.clone()), text: text.clone(), class: "chain" });
-            if ctr % 5 == 0 {
-                // the whole chain as a parenthesised group under a unary function, followed by another operand
-                let k = bins[(ctr as usize / 5) % bins.len()];
-                let grouped = Tree::bin(k, Tree::un(U1, tree.clone()), Tree::var("w"));
+            if ctr % 2 == 0 && n <= 5 {
+                // the whole chain as a parenthesised group under a unary function or sign, with a variable or a LITERAL
+                // directly before / after the group (a literal beside the group may be folded with a literal inside it)
+                let k = bins[(ctr as usize / 2) % bins.len()];
                 let r = crate::table::repr_of(k);
-                out.push(Program { tree: Some(grouped), text: format!("sin({text}) {r} w"), class: "chain-in-unary-group" });
-                let grouped2 = Tree::bin(k, Tree::var("w"), Tree::un(Z, Tree::paren(tree.clone())));
-                out.push(Program { tree: Some(grouped2), text: format!("w {r} -({text})"), class: "chain-in-unary-group" });
+                let outer: Tree = if ctr % 4 == 0 { Tree::var("w") } else { Tree::lit("9") };
+                let outer_txt = if ctr % 4 == 0 { "w" } else { "9" };
+                match (ctr / 4) % 4 {
+                    0 => out.push(Program { tree: Some(Tree::bin(k, Tree::un(U1, tree.clone()), outer.clone())), text: format!("sin({text}) {r} {outer_txt}"), class: "chain-in-unary-group" }),
+                    1 => out.push(Program { tree: Some(Tree::bin(k, outer.clone(), Tree::un(Z, Tree::paren(tree.clone())))), text: format!("{outer_txt} {r} -({text})"), class: "chain-in-unary-group" }),
+                    2 => out.push(Program { tree: Some(Tree::bin(k, Tree::un(Z, Tree::paren(tree.clone())), outer.clone())), text: format!("-({text}) {r} {outer_txt}"), class: "chain-in-unary-group" }),
+                    _ => out.push(Program { tree: Some(Tree::bin(k, outer.clone(), Tree::un(U2, Tree::un(U1, tree.clone())))), text: format!("{outer_txt} {r} cos sin({text})"), class: "chain-in-unary-group" }),
+                }
+                // and as a plain parenthesised group (no unary) beside a literal
+                if ctr % 8 == 0 {
+                    out.push(Program { tree: Some(Tree::bin(k, Tree::paren(tree.clone()), Tree::lit("9"))), text: format!("({text}) {r} 9"), class: "chain-in-group" });
+                    out.push(Program { tree: Some(Tree::bin(k, Tree::lit("9"), Tree::paren(tree.clone()))), text: format!("9 {r} ({text})"), class: "chain-in-group" });
+                }
             }
             if ctr % 7 == 0 {
                 // one leaf carries a unary chain
